@@ -1,1 +1,91 @@
-From Ase Require Import Model.Dump.
+(* C08: tilemap and tileset views agree. *)
+From Ase Require Import Base.Prelude.
+From Ase Require Import Model.Render.
+From Ase Require Import Proofs.RenderFrame.
+From Ase Require Import Proofs.TilemapProofs.
+From Ase Require Import Spec.Compose.
+
+(* AsepriteFile::tilemap: what a returned tilemap is *)
+Theorem C08_tilemap : forall f l fr t, tilemap_of f l fr = Ok (Some t) ->
+  tmv_frame t = fr /\ tmv_layer t = l /\
+  0 <= l < num_layers f /\ 0 <= fr < num_frames f /\
+  (exists lay, layer_get f l = Ok lay /\ l_type lay = 2 /\ zfind (l_tileset lay) (f_tilesets f) = Some (tmv_ts t)) /\
+  cel_is_tilemap f (fr, l) = Ok true /\
+  ts_w (tmv_ts t) <> 0 /\ ts_h (tmv_ts t) <> 0 /\
+  tmv_w t = (f_width f + ts_w (tmv_ts t) - 1) / ts_w (tmv_ts t) /\
+  tmv_h t = (f_height f + ts_h (tmv_ts t) - 1) / ts_h (tmv_ts t) /\
+  tmv_w t < 65536 /\ tmv_h t < 65536.
+Proof. exact tilemap_of_spec. Qed.
+Print Assumptions C08_tilemap.
+
+(* its size in tiles is the canvas size divided by the tile size, rounded up *)
+Theorem C08_size : forall f l fr t, tilemap_of f l fr = Ok (Some t) ->
+  0 < ts_w (tmv_ts t) -> 0 < ts_h (tmv_ts t) ->
+  (tmv_w t - 1) * ts_w (tmv_ts t) < f_width f <= tmv_w t * ts_w (tmv_ts t) /\
+  (tmv_h t - 1) * ts_h (tmv_ts t) < f_height f <= tmv_h t * ts_h (tmv_ts t).
+Proof. exact tilemap_of_size. Qed.
+Print Assumptions C08_size.
+
+(* the tile offsets are the cel offset divided by the tile size (truncating) *)
+Theorem C08_offsets : forall f t ox oy, tilemap_tile_offsets f t = Ok (ox, oy) ->
+  exists x y, cel_top_left f (tmv_frame t, tmv_layer t) = Ok (x, y) /\
+    ts_w (tmv_ts t) <> 0 /\ ts_h (tmv_ts t) <> 0 /\
+    ox = Z.quot x (ts_w (tmv_ts t)) /\ oy = Z.quot y (ts_h (tmv_ts t)).
+Proof. exact tile_offsets_spec. Qed.
+Print Assumptions C08_offsets.
+
+(* Tilemap::tile at all integer coordinates: outside the stored area the empty tile 0, inside the
+   stored id *)
+Theorem C08_lookup : forall f t ox oy d, tilemap_tile_offsets f t = Ok (ox, oy) -> tilemap_data f t = Ok d ->
+  forall x y,
+    (~ (0 <= x - ox < tm_w d /\ 0 <= y - oy < tm_h d) -> tilemap_tile f t x y = Ok 0) /\
+    (0 <= x - ox < tm_w d /\ 0 <= y - oy < tm_h d ->
+       tilemap_tile f t x y =
+       match aget (tm_tiles d) ((y - oy) * tm_w d + (x - ox)) with Some id => Ok id | None => Panic 315 end).
+Proof. exact tilemap_tile_spec. Qed.
+Print Assumptions C08_lookup.
+
+(* each tile image has exactly the tile size *)
+Theorem C08_tile_image_dims : forall ts i r, tile_image ts i = Ok r ->
+  0 <= i < ts_count ts /\ rw r = ts_w ts /\ rh r = ts_h ts /\
+  (0 <= ts_w ts * ts_h ts -> zlen (rpx r) = ts_w ts * ts_h ts).
+Proof. exact tile_image_dims. Qed.
+Print Assumptions C08_tile_image_dims.
+
+(* the tileset image is the tile images stacked vertically in index order *)
+Theorem C08_tileset_stacked : forall ts full tile i, tileset_image ts = Ok full -> tile_image ts i = Ok tile ->
+  0 <= ts_w ts -> 0 <= ts_h ts ->
+  rw full = ts_w ts /\ rh full = ts_h ts * ts_count ts /\
+  rpx tile = firstn_z (ts_w ts * ts_h ts) (skipn_z (i * (ts_w ts * ts_h ts)) (rpx full)) /\
+  forall r c, 0 <= r < ts_h ts -> 0 <= c < ts_w ts ->
+    nthz (rpx full) ((i * ts_h ts + r) * ts_w ts + c) = nthz (rpx tile) (r * ts_w ts + c).
+Proof. exact tileset_stacked. Qed.
+Print Assumptions C08_tileset_stacked.
+
+(* the tilemap's image is the image of its cel *)
+Theorem C08_tilemap_image : forall f t, tilemap_image f t = cel_image f (tmv_frame t, tmv_layer t).
+Proof. exact tilemap_image_is_cel_image. Qed.
+Print Assumptions C08_tilemap_image.
+
+(* for a tile-aligned cel, the tilemap image shows at each canvas position the pixel of the tile
+   that the lookup reports for that position, alpha scaled by the opacity; where the lookup
+   falls outside the stored area it reports tile 0 and the image is transparent *)
+Theorem C08_image_lookup : forall f l fr t img ox oy,
+  render_wf f -> tilemap_of f l fr = Ok (Some t) -> tilemap_image f t = Ok img ->
+  cel_top_left f (fr, l) = Ok (ox * ts_w (tmv_ts t), oy * ts_h (tmv_ts t)) ->
+  exists lay c tm px,
+    aget (f_layers f) l = Some lay /\ cel_at f fr l = Some c /\ c_content c = CTilemap tm /\
+    ts_pixels (tmv_ts t) = Some px /\
+    tilemap_tile_offsets f t = Ok (ox, oy) /\
+    iw img = f_width f /\ ih img = f_height f /\
+    forall x y, 0 <= x < f_width f -> 0 <= y < f_height f ->
+      let tw := ts_w (tmv_ts t) in
+      let th := ts_h (tmv_ts t) in
+      (0 <= x / tw - ox < tm_w tm /\ 0 <= y / th - oy < tm_h tm ->
+         exists id s, tilemap_tile f t (x / tw) (y / th) = Ok id /\
+                      pixels_get px (tw * th * id + ((y mod th) * tw + x mod tw)) = Some s /\
+                      img_get img x y = scale_alpha s (cel_opacity lay c)) /\
+      (~ (0 <= x / tw - ox < tm_w tm /\ 0 <= y / th - oy < tm_h tm) ->
+         tilemap_tile f t (x / tw) (y / th) = Ok 0 /\ img_get img x y = transparent).
+Proof. exact tilemap_image_lookup. Qed.
+Print Assumptions C08_image_lookup.
